@@ -562,23 +562,9 @@ void HPProc::getElementD(int k)
 
 bool HPProc::InTriangleTest(double x, double y, int i) const
 {
-	int j,k;
-	double z;
-	bool InFlag;
-
-    if(i<0) return false;
-
-    for(j=0,InFlag=true;((j<3) && (InFlag==true));j++)
-	{
-		k=j+1; if(k==3) k=0;
-        z=(meshnodes[meshelems[i]->p[k]]->x-meshnodes[meshelems[i]->p[j]]->x)*
-          (y-meshnodes[meshelems[i]->p[j]]->y) -
-          (meshnodes[meshelems[i]->p[k]]->y-meshnodes[meshelems[i]->p[j]]->y)*
-          (x-meshnodes[meshelems[i]->p[j]]->x);
-        if(z<0) InFlag=false;
-	}
-
-	return InFlag;
+    // use the node-index-ordered edge test of the base class: two elements sharing an edge
+    // then evaluate the same expression, so no point of the edge is rejected by both
+    return femm::PostProcessor::InTriangleTest(x,y,i);
 }
 
 CComplex HPProc::blockIntegral(int inttype)
